@@ -1608,7 +1608,8 @@ static void process_if_chain(Chunk *br_start)
 
       if (pc->Is(CT_ELSEIF))
       {
-         while (  pc->IsNot(CT_VBRACE_OPEN)
+         while (  pc->IsNotNullChunk()
+               && pc->IsNot(CT_VBRACE_OPEN)
                && pc->IsNot(CT_BRACE_OPEN))
          {
             pc = pc->GetNextNcNnl(E_Scope::PREPROC);
